@@ -1,13 +1,14 @@
 package kv
 
 import (
-	"sync/atomic"
 	"context"
 	"errors"
 	"fmt"
+	apierrors "k8s.io/apimachinery/pkg/api/errors"
 	"sort"
 	"strconv"
 	"sync"
+	"sync/atomic"
 	"time"
 
 	corev1 "k8s.io/api/core/v1"
@@ -225,6 +226,14 @@ func (s *Server) Watch(ctx context.Context, opts metav1.ListOptions) (watch.Inte
 	}
 	switch mode {
 	case WatchError:
+		// connect errors of the kinds a REST client produces: a plain error, or an API status (410 Gone / expired
+		// resource version, possibly wrapped) — all of them just a failed connect for the caller
+		switch len(s.Watches) % 3 {
+		case 1:
+			return nil, apierrors.NewResourceExpired("too old resource version")
+		case 2:
+			return nil, fmt.Errorf("fake server: %w", apierrors.NewGone("gone"))
+		}
 		return nil, ErrWatchConnect
 	case WatchBlock:
 		s.Blocked.Add(1)
